@@ -311,7 +311,7 @@ func runC06(c *Cfg) {
 			}
 		}
 	}
-	for _, sh := range []string{"single", "single-nil-ptr", "single-nil-map", "nil", "empty-results", "empty-any"} {
+	for _, sh := range []string{"single", "single-nil-ptr", "single-nil-map", "single-array", "single-array-16", "nil", "empty-results", "empty-any"} {
 		for _, cc := range []int{0, 2} {
 			n := 0
 			if strings.HasPrefix(sh, "single") {
